@@ -284,7 +284,20 @@ class _Link:
         self.announced = []          # (id, could another worker load it at that instant?)
 
     async def notify(self, event):
-        self.announced.append((event.id, bool(self.visible(event.id))))
+        pass                         # the probe sits at the storage's call of notify_other_processes (see attach)
+
+    def attach(self, storage):
+        """the instant that counts is the one at which the storage decides to announce (its call of notify_other_processes):
+        from then on the id is on its way to the other workers"""
+        storage.notifier = self
+        orig = storage.notify_other_processes
+        link = self
+
+        async def notify_other_processes(event):
+            link.announced.append((event.id, bool(link.visible(event.id))))
+            return await orig(event)
+
+        storage.notify_other_processes = notify_other_processes
 
 
 def _announce_events(rng, n):
@@ -373,7 +386,7 @@ def announce_case_sql(report, drv, rng, tag, evs=None):
             finally:
                 c.close()
         link = _Link(visible)
-        st.storage.notifier = link
+        link.attach(st.storage)
         submitted = []
         evs = evs or _announce_events(rng, rng.randint(2, 5))
         for e in evs + [rng.choice(evs)]:             # the last one is a resubmission
@@ -400,7 +413,7 @@ def announce_case_kv(report, drv, rng, tag, contended, evs=None):
             with st.env.begin(buffers=True) as txn:
                 return bool(kv.get_event_data(txn, bytes.fromhex(idhex)))
         link = _Link(visible)
-        st.storage.notifier = link
+        link.attach(st.storage)
         threading.Thread.start(st.writer)              # the real thread (KVStore leaves it unstarted)
         submitted = []
         evs = evs or _announce_events(rng, rng.randint(1, 3))
